@@ -207,6 +207,30 @@ pub fn run(tier: Tier) -> Report {
     for (key, summary, detail) in &t.violations {
         rep.violation(key, summary.clone(), detail.clone());
     }
+    // supplementary seeded random tier of larger trees (can only add violations; not part of
+    // the exhaustive counts)
+    let n_random = tier.pick(120_000usize, 2_000_000usize);
+    let seed = crate::report::seed();
+    let raccs = crate::par::run(
+        n,
+        |push| crate::fam::random_grammars(seed.wrapping_add(17), n_random, &mut |g| push(g)),
+        Acc::default,
+        |acc, g| work(acc, g, &[Shell::Bash, Shell::Zsh]),
+    );
+    let r = merge(raccs);
+    for (key, summary, detail) in &r.violations {
+        rep.violation(key, format!("[random tier, seed {seed}] {summary}"), detail.clone());
+    }
+    rep.cov(
+        "supplementary_random",
+        J::obj(vec![
+            ("seed", J::i(seed as i64)),
+            ("grammars", J::i(n_random as i64)),
+            ("accepted_and_compared", J::i(r.accepted as i64)),
+            ("product_states", J::i(r.states as i64)),
+            ("note", J::s("random trees of 8..23 nodes over {a, b, d, <U>, cmd}, arity <= 4, bash+zsh; not part of states/transitions/exhaustive")),
+        ]),
+    );
     rep.cov("states", J::i(t.states as i64));
     rep.cov("transitions", J::i(t.transitions as i64));
     rep.cov("traces_validated_against_impl", J::i(0));
